@@ -61,7 +61,11 @@ def ratioLimit (num den : List (ExpTerm)) : Verdict :=
       | none => .finite 0
       | some cn =>
         if clsLt cn cd then .finite 0
-        else if clsLt cd cn then .infinite
+        else if clsLt cd cn then
+          -- two dominant numerator terms with bases ±ρ can cancel on every other n
+          (match dominant n with
+           | [_] => .infinite
+           | _ => .oscillates)
         else
           match dominant n with
           | [tn] => if tn.base = td.base then .finite (tn.coef / td.coef) else .oscillates
